@@ -241,6 +241,9 @@ const (
 // agingWorld is set by the run before NewWorld (one run per process at a time).
 var agingWorld bool
 
+// strictZombieWorld: see Config.StrictZombie.
+var strictZombieWorld bool
+
 func pruneIntervalFor(aging bool) time.Duration {
 	if aging {
 		return pruneInterval
@@ -339,7 +342,7 @@ func NewWorld(r *simcore.Run, chain *SimChain, self *uNode, npeers int, syncPeer
 		GraphPruneInterval:  pruneIntervalFor(agingWorld), // out of reach of the fake clock unless the run is in the aging arm
 		FirstTimePruneDelay: graph.DefaultFirstTimePruneDelay,
 		AssumeChannelValid:  false,
-		StrictZombiePruning: false,
+		StrictZombiePruning: strictZombieWorld,
 		IsAlias:             func(lnwire.ShortChannelID) bool { return false },
 	})
 	r.Must(err, "new builder")
